@@ -450,6 +450,75 @@ Fixpoint xs_is_point_int_from (cnt : Z) (s : list (itv xq)) : bool :=
   end.
 Definition xs_is_point_int (s : list (itv xq)) : bool := xs_is_point_int_from 0 s.
 
+(* ---- the integer queries look at an end point only through lp_value_is_infinity, lp_value_is_integer,
+   lp_value_floor and lp_value_ceiling.  [epi] is that view of an end point; the functions below are the same
+   programs as itv_contains_int / itv_count_int / xs_* written over it (FeasSetProofs: they coincide on rational
+   end points).  For ALGEBRAIC end points the model driver computes the view with the reference RefAlg
+   (rn_is_integer / rn_floor / rn_ceiling: exact) and runs these functions. *)
+Inductive epi := EPInf | EPFin (is_int : bool) (fl ce : Z).
+Definition epi_is_infinity (e : epi) : bool := match e with EPInf => true | _ => false end.
+Definition epi_is_integer (e : epi) : bool := match e with EPFin b _ _ => b | _ => false end.
+Definition epi_floor (e : epi) : Z := match e with EPFin _ f _ => f | _ => 0 end.
+Definition epi_ceiling (e : epi) : Z := match e with EPFin _ _ c => c | _ => 0 end.
+Definition epi_of_xq (x : xq) : epi :=
+  match x with XQFin q => EPFin (q_is_integer q) (q_floor q) (q_ceiling q) | _ => EPInf end.
+Definition epi_itv (X : itv xq) : itv epi :=
+  mkItv (epi_of_xq (ia X)) (epi_of_xq (ib X)) (ia_open X) (ib_open X) (ipt X).
+
+Definition ei_contains_int (X : itv epi) : bool :=
+  if epi_is_infinity (ia X) then true else
+  let a_int := epi_is_integer (ia X) in
+  if ipt X then a_int else
+  if negb (ia_open X) && a_int then true else
+  if epi_is_infinity (ib X) then true else
+  let b_int := epi_is_integer (ib X) in
+  if negb (ib_open X) && b_int then true else
+  let m := epi_ceiling (ia X) in
+  let n := epi_floor (ib X) in
+  let m := if a_int then m + 1 else m in
+  let n := if b_int then n - 1 else n in
+  n >=? m.
+
+Definition ei_count_int (X : itv epi) : Z :=
+  if epi_is_infinity (ia X) then LONG_MAX else
+  let a_int := epi_is_integer (ia X) in
+  if ipt X then (if a_int then 1 else 0) else
+  if epi_is_infinity (ib X) then LONG_MAX else
+  let b_int := epi_is_integer (ib X) in
+  let result := (if negb (ia_open X) && a_int then 1 else 0) + (if negb (ib_open X) && b_int then 1 else 0) in
+  let m := epi_ceiling (ia X) in
+  let n := epi_floor (ib X) in
+  let m := if a_int then m + 1 else m in
+  let n := if b_int then n - 1 else n in
+  let n := n - m in
+  if 0 <=? n then
+    if fits_int n then
+      if n >=? LONG_MAX - result then LONG_MAX else result + (n + 1)
+    else LONG_MAX
+  else result.
+
+Fixpoint es_contains_int (s : list (itv epi)) : bool :=
+  match s with
+  | [] => false
+  | X :: t => if ei_contains_int X then true else es_contains_int t
+  end.
+Fixpoint es_count_int_from (cnt : Z) (s : list (itv epi)) : Z :=
+  match s with
+  | [] => cnt
+  | X :: t =>
+    let tmp := ei_count_int X in
+    if tmp >=? LONG_MAX - cnt then LONG_MAX else es_count_int_from (cnt + tmp) t
+  end.
+Definition es_count_int (s : list (itv epi)) : Z := es_count_int_from 0 s.
+Fixpoint es_is_point_int_from (cnt : Z) (s : list (itv epi)) : bool :=
+  match s with
+  | [] => cnt =? 1
+  | X :: t =>
+    let tmp := ei_count_int X in
+    if (1 <? tmp) || (1 <? tmp + cnt) then false else es_is_point_int_from (cnt + tmp) t
+  end.
+Definition es_is_point_int (s : list (itv epi)) : bool := es_is_point_int_from 0 s.
+
 (* checker for lp_feasibility_set_pick_value / lp_interval_pick_value: the value is in the set (linear scan with
    lp_interval_contains), and it is an integer whenever the set contains one *)
 Definition xs_mem (s : list (itv xq)) (v : xq) : bool := existsb (fun X => itv_contains xq_cmp X v) s.
